@@ -172,6 +172,7 @@ def run(pid, tier, seed, t0):
              "%d records differ from that transcription" % (len(predicted), len(observed_bad_classes), len(diffa)))
     import x_tlsstream
     tls_stage = x_tlsstream.stage(pid, tier, seed, verdict)      # TlsStream.tla: the C20 clauses (T4: info published once, after success)
+    conn_info = __import__("x_conninfo").stage(pid, tier, seed, verdict)   # ConnInfo.tla: the TLS info / SNI a request carries is its own connection's
     code, unlisted = verdict.finish()
 
     subject = sum(1 for v in vecs if v["subject"])
@@ -184,7 +185,7 @@ def run(pid, tier, seed, t0):
     vlib.write_evidence(
         pid, tier, seed, "model_checking",
         {
-            "tls_stream_model": tls_stage,
+            "tls_stream_model": tls_stage, "conn_info_model": conn_info,
             "states": m.distinct + cm.distinct, "transitions": (m.generated - len(vecs)) + (cm.generated - n_scn),
             "traces_validated_against_impl": nrec,
             "samples": samples,
@@ -237,6 +238,8 @@ def run(pid, tier, seed, t0):
 def replay(pid, path):
     d = vlib.outdir(pid)
     obj = json.load(open(path))
+    if isinstance(obj.get("replay"), dict) and obj["replay"].get("kind") == "conninfo-trace":
+        return __import__("x_conninfo").replay(pid, obj)
     if isinstance(obj.get("replay"), dict) and obj["replay"].get("kind") == "tlsstream-ops":
         import x_tlsstream
         return x_tlsstream.replay(pid, obj)
